@@ -1,5 +1,5 @@
 (* C13 -- a script parses to the list of its statements' trees. *)
-From Coq Require Import List NArith ZArith String Bool.
+From Coq Require Import List NArith ZArith String Ascii Bool.
 From MoSql Require Import Base.Json Model.Lit Model.Script Proofs.ScriptProofs.
 Import ListNotations.
 
@@ -21,3 +21,26 @@ Proof. exact assemble_skips. Qed.
 (* non-vacuity: leading, doubled and trailing separators around two statements *)
 Example C13_premise_satisfiable : well_sep [Semi; Stmt 1; Semi; Semi; Stmt 2; Semi] = true /\ stmts_of [Semi; Stmt 1; Semi; Semi; Stmt 2; Semi] = [1; 2]%nat.
 Proof. vm_compute. auto. Qed.
+
+(* ---- model-level witnesses of the listed findings ---- *)
+Local Open Scope N_scope.
+Definition cp (s : string) : list N := map N_of_ascii (list_ascii_of_string s).
+
+(* listed findings of C13 at model level (Model/Script.v is the DELIMITER pre-pass, compared with parse_delimiters on every run):
+   the pre-pass works on the raw text, so a line that starts with the word inside a string literal is a directive ... *)
+Theorem C13_directive_inside_literal_refuted :
+  mparse_delimiters (cp "select 'x" ++ [10] ++ cp "delimiter //" ++ [10] ++ cp "'; select 2")
+  = [cp "select 'x"; cp "delimiter //"; cp "'; select 2"].
+Proof. vm_compute. reflexivity. Qed.
+
+(* ... a custom delimiter separates only at the end of a line ... *)
+Theorem C13_custom_delimiter_mid_line_refuted :
+  mparse_delimiters (cp "delimiter $$" ++ [10] ++ cp "select 1$$ select 2$$" ++ [10])
+  = [cp "delimiter $$"; cp "select 1$$ select 2"; []].
+Proof. vm_compute. reflexivity. Qed.
+
+(* ... and does so inside a string literal too *)
+Theorem C13_custom_delimiter_inside_literal_refuted :
+  mparse_delimiters (cp "delimiter $$" ++ [10] ++ cp "select '$$" ++ [10] ++ cp "'$$" ++ [10] ++ cp "select 2$$" ++ [10])
+  = [cp "delimiter $$"; cp "select '"; cp "'"; cp "select 2"; []].
+Proof. vm_compute. reflexivity. Qed.
